@@ -58,4 +58,35 @@ def why (first last k : Nat) (before after : View) : String :=
     s!"syntax error outside the damaged entry: error lines {after.errors}, damaged lines {first + 1}..{first + k}"
   else "diagnostics of an undamaged entry changed"
 
+/-- `containedTight`: the form of `contained` for journals whose entries are NOT separated by
+    blank lines (stacked `P` lines, transactions directly below one another).  A line that starts
+    in column 1 always starts a new entry, so whatever the damage is, every entry AFTER the
+    damaged one is still recognised with the same content at its shifted position, nothing else
+    is recognised there, no syntax error and no foreign diagnostic lies there
+    (`HL.Props.C07.blank_line_closes` for arbitrary damaged tokens).  Entries BEFORE the damaged
+    one are protected only while the damaged entry still starts in column 1 (`col1`; an indented
+    first line legitimately continues the entry above, `HL.Props.C07.C07_prefix_partial`). -/
+def containedTight (first last k : Nat) (col1 : Bool) (before after : View) : Bool :=
+  let sufE := (before.entries.filter fun e => e.line > last + 1).map fun e => (⟨shift first last k e.line, e.sig⟩ : EntryView)
+  let sufG := after.entries.filter fun e => e.line > first + k
+  let sufD := (before.diags.filter fun d => d.line > last + 1).map fun d => (⟨shift first last k d.line, d.code, d.msg⟩ : Diag)
+  let sufDG := after.diags.filter fun d => d.line > first + k
+  let preE := before.entries.filter fun e => e.line ≤ first
+  let preG := after.entries.filter fun e => e.line ≤ first
+  let preD := before.diags.filter fun d => d.line ≤ first
+  let preDG := after.diags.filter fun d => d.line ≤ first
+  sufE == sufG && sufD == sufDG && after.errors.all (fun l => l ≤ first + k) &&
+    (!col1 || (preE == preG && preD == preDG && after.errors.all (inRegion first k)))
+
+def whyTight (first last k : Nat) (col1 : Bool) (before after : View) : String :=
+  let sufE := (before.entries.filter fun e => e.line > last + 1).map fun e => (⟨shift first last k e.line, e.sig⟩ : EntryView)
+  let sufG := after.entries.filter fun e => e.line > first + k
+  if sufE != sufG then
+    s!"entries after the damaged entry changed: expected start lines {sufE.map (·.line)}, got {sufG.map (·.line)}"
+  else if !(after.errors.all (fun l => l ≤ first + k)) then
+    s!"syntax error after the damaged entry: error lines {after.errors}, damaged lines {first + 1}..{first + k}"
+  else if col1 && (before.entries.filter fun e => e.line ≤ first) != (after.entries.filter fun e => e.line ≤ first) then
+    "entries before the damaged entry changed although it still starts in column 1"
+  else "diagnostics or error lines of an undamaged entry changed"
+
 end HL.Contained
